@@ -97,6 +97,7 @@ def run(ctx):
     ctx.decided("index cache is a pure memo; lookups cannot depend on query history (MEMO)")
     ctx.decided("repository token is one path component (REPO)")
     ctx.decided("category directory names and category ids equal the reference table (CATEGORY)")
+    ctx.decided("index / index2 / dat file-name templates and the provenance of each formatted field (NAMING)")
     ctx.decided("lookup chain provenance: offset, dat id, chunk, both index kinds per chunk (PROV)")
     ctx.not_decided("CRC values; which chunk files exist at run time; behaviour of synonym entries")
 
@@ -453,6 +454,11 @@ def run(ctx):
             ctx.ob("CATEGORY", f"name|{dir_}", table.get(dir_) == {name}, f"string_to_category({dir_!r}) = {sorted(table.get(dir_, []))}; must be Category::{name}", sb.file, sb.line, sample=(dir_ == "chara"))
         extra = sorted(set(table) - set(CATEGORIES))
         ctx.ob("CATEGORY", "no-unknown-directory", not extra, f"directory names outside the game's list: {extra}", sb.file, sb.line, trivial=True)
+
+    # ---- NAMING: the file names the lookup opens for a (repository, category, chunk[, dat id])
+    from .c15 import read_side_names
+
+    read_side_names(ctx, "NAMING")
 
     # ---- PROV
     eb = prog.body("gamedata::GameData::extract")
